@@ -86,7 +86,7 @@ func Encrypt(recips []age.Recipient, plain []byte, armored bool, segs []int) (ou
 
 // DecResult is the observable result of decrypting a whole buffer.
 type DecResult struct {
-	DecryptErr error  // error returned by age.Decrypt (reader nil then)
+	DecryptErr error // error returned by age.Decrypt (reader nil then)
 	ReaderNil  bool
 	Plain      []byte // bytes released before ReadErr
 	ReadErr    error  // nil means clean io.EOF was reached
